@@ -25,7 +25,7 @@ CLAIMED = {
         design="4/C16"),
     "C14": dict(
         technique="MIR path-sensitive guard analysis across contracts: pause / open / registered guards as facts on every success path of the tabled arms, cross-contract query parsing, registry guards, shutdown filter",
-        note="Decided: R14.1 State.pause tested on every success path of Open/Close/Deposit/Withdraw and never consulted by the Liquidate/PayFunding chains; R14.2 vAMM State.open tested in SwapInput/SwapOutput/SettleFunding; R14.3 IsVamm{msg.vamm} on config.insurance_fund and State.open of msg.vamm in Open/Liquidate/Withdraw/PayFunding; R14.4 duplicate and capacity(=3) guards before every registry store, membership queries read the same item; R14.5 shutdown emits SetOpen{false} only for vAMMs just read as open, a closed vAMM does not end the iteration, and the registry is read whole (limit = the capacity constant). Not decided: the run-time effect of a closed vAMM on ClosePosition is the composition of R14.2 with C08 (not re-derived).",
+        note="Decided: R14.1 State.pause tested on every success path of Open/Close/Deposit/Withdraw and never consulted by the Liquidate/PayFunding chains; R14.2 vAMM State.open tested in SwapInput/SwapOutput/SettleFunding; R14.3 IsVamm{msg.vamm} on config.insurance_fund and State.open of msg.vamm in Open/Liquidate/Withdraw/PayFunding; R14.4 duplicate and capacity(=3) guards before every registry store, membership queries read the same item; R14.5 shutdown emits SetOpen{false} only for vAMMs just read as open, a closed vAMM does not end the iteration, and the registry is read whole (limit = the capacity constant); R14.4 also the membership answer is registry.contains(msg.vamm), false without a registry; R14.6 role tests are real disjunctions: SetOpen succeeds for the insurance fund alone, ShutdownVamms for the owner alone. Not decided: the run-time effect of a closed vAMM on ClosePosition is the composition of R14.2 with C08 (not re-derived).",
         design="4/C14"),
     "C10": dict(
         technique="MIR stored-value flow: origin of the (vamm, trader) pair in every position store/remove key and in every tmp-swap store, per execute->reply chain step; field-assignment census; query entry signatures; unsafe census with fixture",
@@ -57,7 +57,7 @@ CLAIMED = {
         design="4/C04"),
     "C12": dict(
         technique="MIR path census of fee-transfer invocations per chain step keyed by the fees_paid / zero-base conditions, constant propagation of the flag through the in-flight record, operand-origin and formula matching for fee base, routing and CalcFee",
-        note="Decided: R12.1 fee-transfer call counts per chain path (Open once across a reversal, Close once unless base zero, none for Liquidate/PayFunding/Deposit/Withdraw); R12.2 fees_paid false at every execute store, true before the chained increase, increase reply charges iff false; R12.3 fee base = margin*leverage/decimals captured before the reversal rewrites it, position.notional on whole close; R12.4 spread -> config.insurance_fund, toll -> config.fee_pool, payer = trader argument; R12.5 CalcFee trees. Not decided: rounding beyond the floor divisions in the trees.",
+        note="Decided: R12.1 fee-transfer call counts per chain path (Open once across a reversal, Close once unless base zero, none for Liquidate/PayFunding/Deposit/Withdraw); R12.2 fees_paid false at every execute store, true before the chained increase, increase reply charges iff false; R12.3 fee base = margin*leverage/decimals captured before the reversal rewrites it, position.notional on whole close; R12.4 spread -> config.insurance_fund, toll -> config.fee_pool, payer = trader argument; R12.5 CalcFee trees; R12.6 every fee message of an Open/Close chain carries a fee that is non-zero by a path fact (a fee is moved iff it is non-zero). Not decided: rounding beyond the floor divisions in the trees.",
         design="4/C12"),
     "C05": dict(
         technique="MIR guard facts with formula matching of the compared operands, event ordering on success paths (store before margin-ratio query), stored-value and transfer-amount flow",
@@ -81,7 +81,7 @@ CLAIMED = {
         design="4/C01"),
     "C02": dict(
         technique="finite-domain sign-table interpretation over the execute->vAMM->reply chain graph: side/direction helper tables, vAMM direction plumbing and event-attribute mapping extracted from MIR and composed for every assignment of acting side x position kind",
-        note="Decided: R02.1 on every swap edge and assignment the engine's size change has the sign of the vAMM's net-position change and its operand is the base amount of that swap kind (found F8: partial liquidation through SwapInput, fixed); R02.2 positions are removed/zeroed only after a SwapOutput of size.value in the position's own direction, every swap reply path stores or removes the position; R02.3 attribute keys / type values parsed by the engine are those the vAMM emits, with requested vs priced amounts on the right keys; R02.4 the reduce-vs-reverse decision compares the position's current spot notional with the requested notional, and the partial-liquidation ratio that scales the liquidated size is validated <= decimals at every writer; R02.5 the direction stored with a changed size follows the sign of that size: taken from the acting side wherever the size grows (the old size may be zero and a zero-size record's direction is arbitrary), kept from the record only where the size shrinks (added after seed C02f) - with R02.1/R02.4 this makes 'size>0 <=> direction==AddToAmm for live records' an inductive invariant of the analysed paths instead of an assumption. Not decided: nothing numeric beyond operand identity; failed transactions are covered by C08.",
+        note="Decided: R02.1 on every swap edge and assignment the engine's size change has the sign of the vAMM's net-position change and its operand is the base amount of that swap kind (found F8: partial liquidation through SwapInput, fixed); R02.2 positions are removed/zeroed only after a SwapOutput of size.value in the position's own direction, every swap reply path stores or removes the position; R02.3 attribute keys / type values parsed by the engine are those the vAMM emits, with requested vs priced amounts on the right keys; R02.4 the reduce-vs-reverse decision compares the position's current spot notional with the requested notional, and the partial-liquidation ratio that scales the liquidated size is validated <= decimals at every writer; R02.5 the direction stored with a changed size follows the sign of that size: taken from the acting side wherever the size grows (the old size may be zero and a zero-size record's direction is arbitrary), kept from the record only where the size shrinks (added after seed C02f) - with R02.1/R02.4 this makes 'size>0 <=> direction==AddToAmm for live records' an inductive invariant of the analysed paths instead of an assumption; R02.6 the position getter returns the stored record unchanged when it exists, otherwise the default record with only identity, direction(side) and block stamp set. Not decided: nothing numeric beyond operand identity; failed transactions are covered by C08.",
         design="4/C02"),
     "C07": dict(
         technique="MIR cross-contract type agreement of every query edge (resolved generic arguments), chain-wide absence of gating facts, contradiction rule between the selection comparison and the partial reply's arithmetic, event-order rule for balance-sized top-ups, return-vs-queued agreement, non-zero-amount facts inherited down the call chain for every token-moving message of the liquidation replies",
